@@ -501,8 +501,13 @@ func genCase(rt *rapid.T) Case {
 		c.MediaType = rp.Pick(rt, "mediaType", ociTypes...)
 		c.DigestAlg = rp.Pick(rt, "digestAlg", "sha256", "sha256", "sha384", "sha512")
 		c.Content = []byte(rapid.StringN(0, 12, -1).Draw(rt, "digestSeed"))
-		// sizes stay below 2^53 (known limit of the JWS encoder of the pinned dependency, finding F13)
-		c.Size = rp.Pick(rt, "size", 0, 1, 528, 1<<31, 1<<53-1, rapid.Int64Range(0, 1<<40).Draw(rt, "sizeAny"))
+		c.Size = rp.Pick(rt, "size", 0, 1, 528, 1<<31, 1<<53-1, 1<<53, 1<<53+2, 1<<62, 1<<63-2, rapid.Int64Range(0, 1<<40).Draw(rt, "sizeAny"))
+		if c.Size > 1<<53 && c.Path == "raw" && c.Format == "jws" {
+			// on the raw path the library builds the JWS itself: sizes stay within 2^53 there (known limit
+			// of the JWS encoder of the pinned dependency, finding F13); an envelope-generating plugin is
+			// the harness's own builder and has no such limit
+			c.Size = 1 << 53
+		}
 	case "blob/signer":
 		c.Target, c.Entry = "blob", "signer"
 	case "blob/api":
